@@ -111,7 +111,7 @@ Definition tm_run (ops : list top) : tstate := fold_left tm_step ops tm_init.
    until everything that is armed has fired and been read. [tm_settle] runs the current instance, if it is still
    pending, through fire / check / deliver; stopped and superseded instances never fire. The observable is the list of
    pairs the channel reader received, oldest first. *)
-Inductive pop := PRegister (h v : N) | PStop | PSettle.
+Inductive pop := PRegister (h v : N) | PStop | PSettle | PFire | PResume.
 Definition tm_settle (s : tstate) : tstate :=
   match tm_cur s with
   | Some i => match nth_error (tm_insts s) i with
@@ -121,7 +121,35 @@ Definition tm_settle (s : tstate) : tstate :=
               | None => s end
   | None => s
   end.
+(* time passes while nobody reads the channel: the current instance, if pending, fires and parks in the send *)
+Definition tm_fire_noreader (s : tstate) : tstate :=
+  match tm_cur s with
+  | Some i => match nth_error (tm_insts s) i with
+              | Some x => match ti_phase x with
+                          | TPending => tm_step (tm_step s (TFire i)) (TCheck i)
+                          | _ => s end
+              | None => s end
+  | None => s
+  end.
+(* the reader comes back: every parked instance that was cancelled meanwhile has given up (nobody was reading when its
+   channel was closed, so only that case of its select was ready); a parked instance that was not cancelled delivers *)
+Fixpoint tm_resume_from (k : nat) (l : list tinst) (s : tstate) : tstate :=
+  match l with
+  | [] => s
+  | x :: r =>
+      let s' := match ti_phase x with
+                | TSending => if ti_cancelled x then tm_step s (TAbort k) else tm_step s (TDeliver k)
+                | _ => s end in
+      tm_resume_from (S k) r s'
+  end.
+Definition tm_resume (s : tstate) : tstate := tm_resume_from 0 (tm_insts s) s.
 Definition tm_pstep (s : tstate) (o : pop) : tstate :=
-  match o with PRegister h v => tm_register h v s | PStop => tm_stop s | PSettle => tm_settle s end.
+  match o with
+  | PRegister h v => tm_register h v s | PStop => tm_stop s | PSettle => tm_settle s
+  | PFire => tm_fire_noreader s | PResume => tm_resume s
+  end.
 Definition tm_public_run (ops : list pop) : list (N * N) :=
   rev (map (fun d => (snd (fst d), snd d)) (tm_delivered (fold_left tm_pstep ops tm_init))).
+(* nothing is left parked once the trigger was stopped and the reader came back (C16: no goroutine of the trigger outlives it) *)
+Definition tm_parked (s : tstate) : nat := length (filter (fun x => match ti_phase x with TSending | TRunning => true | _ => false end) (tm_insts s)).
+Definition tm_public_parked (ops : list pop) : nat := tm_parked (fold_left tm_pstep ops tm_init).
